@@ -78,13 +78,47 @@ fn bases() -> Vec<Base> {
         }
         v.push(Base { name: "L3:threshold-2-rsa-in-table", layout: world::layout(vec![s], vec![], &[a, b, r], world::far_future()), dir });
     }
+    // L4: one step and one inspection (a command the verifier will execute)
+    {
+        let dir = util::fresh_dir("c01");
+        let s = world::step("s", 1, &[a]);
+        let insp = in_toto::models::inspection::Inspection::new("check").run(vec!["true".to_string()].into());
+        world::write(&dir, &world::link_file("s", a), &world::block_text(&world::sign_link(world::link("s", world::arts(&[]), world::arts(&[("p", 2)])), &[a])));
+        v.push(Base { name: "L4:step-and-inspection", layout: world::layout(vec![s], vec![insp], &[a], world::far_future()), dir });
+    }
+    // every base has a readme, and its directory also holds the evidence a *mutated* layout would
+    // ask for (a link for the renamed / copied step, a second functionary's link), so that a
+    // post-signing change is not rejected downstream for lack of evidence
+    for base in v.iter_mut() {
+        base.layout.readme = "release".into();
+        let Some(first) = base.layout.steps.first().cloned() else { continue };
+        for name in ["renamed", "extra"] {
+            for k in [a, b] {
+                world::write(&base.dir, &world::link_file(name, k), &world::block_text(&world::sign_link(world::link(name, world::arts(&[("m", 1)]), world::arts(&[("p", 2)])), &[k])));
+            }
+        }
+        let f = world::link_file(&first.name, b);
+        if !base.dir.join(&f).exists() {
+            let products = if base.name.starts_with("L3") { world::arts(&[("p", 2)]) } else { world::arts(&[("p", 2)]) };
+            let materials = if base.name.starts_with("L3") { world::arts(&[("m", 1)]) } else { world::arts(&[]) };
+            world::write(&base.dir, &f, &world::block_text(&world::sign_link(world::link(&first.name, materials, products), &[b])));
+        }
+    }
     v
 }
 
 // ------------------------------------------------------------ mutations
 
-pub const MUTATIONS: [&str; 36] = [
+pub const MUTATIONS: [&str; 43] = [
     "readme=x",
+    // one character replaced by the character 256 code points above it
+    "readme-twin",
+    "rule.disallow-star-twin",
+    "rule.with-other-side",
+    "inspect0.run",
+    "inspect0.name",
+    "inspect0.rule+DISALLOW",
+    "inspect-last",
     "expires+1s",
     "expires-1s",
     "expires+1y",
@@ -144,6 +178,49 @@ fn mutate(signed: &mut Value, original: &Value, m: &str) -> bool {
     let b = keys::get("ed2");
     match m {
         "readme=x" => signed["readme"] = json!("x"),
+        "readme-twin" => {
+            let cur = signed["readme"].as_str().unwrap_or("").to_string();
+            let Some(c) = cur.chars().next() else { return false };
+            let Some(twin) = char::from_u32(c as u32 + 0x100) else { return false };
+            signed["readme"] = json!(format!("{twin}{}", &cur[c.len_utf8()..]));
+        }
+        "rule.disallow-star-twin" => {
+            let mut done = false;
+            for s in signed["steps"].as_array_mut().into_iter().flatten() {
+                for field in ["expected_materials", "expected_products"] {
+                    for r in s[field].as_array_mut().into_iter().flatten() {
+                        if !done && r[0] == "DISALLOW" && r[1] == "*" {
+                            r[1] = json!("\u{12a}"); // '*' is U+002A
+                            done = true;
+                        }
+                    }
+                }
+            }
+            if !done {
+                return false;
+            }
+        }
+        "rule.with-other-side" => {
+            let Some(r) = find_rule(signed, true) else { return false };
+            let n = r.as_array().unwrap().len();
+            let cur = r[n - 3].as_str().unwrap_or("").to_string();
+            r[n - 3] = json!(if cur == "PRODUCTS" { "MATERIALS" } else { "PRODUCTS" });
+        }
+        "inspect0.run" | "inspect0.name" | "inspect0.rule+DISALLOW" => {
+            let Some(i) = signed["inspect"].get_mut(0) else { return false };
+            match m {
+                "inspect0.run" => i["run"] = json!(["sh", "-c", "exit 0"]),
+                "inspect0.name" => i["name"] = json!("renamed-inspection"),
+                _ => i["expected_products"].as_array_mut().unwrap().push(json!(["DISALLOW", "no-such-file"])),
+            }
+        }
+        "inspect-last" => {
+            let a = signed["inspect"].as_array_mut().unwrap();
+            if a.is_empty() {
+                return false;
+            }
+            a.pop();
+        }
         "expires+1s" => signed["expires"] = json!("2031-06-01T00:00:01Z"),
         "expires-1s" => signed["expires"] = json!("2031-05-31T23:59:59Z"),
         "expires+1y" => signed["expires"] = json!("2032-06-01T00:00:00Z"),
@@ -276,7 +353,23 @@ fn same_content(a: &MetadataWrapper, b: &MetadataWrapper) -> bool {
 
 // ------------------------------------------------- signature corruptions
 
-pub const CORRUPTIONS: [&str; 10] = ["flip-bit-0", "flip-bit-mid", "flip-bit-last", "truncate", "empty", "swap-values", "relabel-keyid", "drop", "duplicate", "zeroed"];
+pub const CORRUPTIONS: [&str; 11] = ["flip-bit-0", "flip-bit-mid", "flip-bit-last", "truncate", "empty", "swap-values", "relabel-keyid", "drop", "duplicate", "zeroed", "copy-under-guise-id"];
+
+/// The same key material as owner `o` (0 = Ed25519, 1 = ECDSA), constructed from the raw public
+/// key: no hash-algorithm list, hence another key id. Anyone can build it and can copy the
+/// owner's signature under its id.
+fn guise(o: usize) -> Option<PublicKey> {
+    let raw = owners()[o].public().as_bytes().to_vec();
+    match o {
+        0 => PublicKey::from_ed25519(raw).ok(),
+        1 => PublicKey::from_ecdsa(raw).ok(),
+        _ => None,
+    }
+}
+
+fn id_str(k: &PublicKey) -> String {
+    serde_json::to_value(k.key_id()).unwrap().as_str().unwrap().to_string()
+}
 
 /// Apply a corruption to signature entry `idx`; returns false if not applicable.
 fn corrupt(block: &mut Value, idx: usize, c: &str, bit: Option<usize>) -> bool {
@@ -330,6 +423,14 @@ fn corrupt(block: &mut Value, idx: usize, c: &str, bit: Option<usize>) -> bool {
             let e = block["signatures"][idx].clone();
             block["signatures"].as_array_mut().unwrap().push(e);
         }
+        "copy-under-guise-id" => {
+            let own = block["signatures"][idx]["keyid"].as_str().unwrap_or("").to_string();
+            let Some(o) = (0..2).find(|o| owners()[*o].id() == own) else { return false };
+            let Some(g) = guise(o) else { return false };
+            let mut e = block["signatures"][idx].clone();
+            e["keyid"] = json!(id_str(&g));
+            block["signatures"].as_array_mut().unwrap().push(e);
+        }
         _ => return false,
     }
     true
@@ -368,6 +469,15 @@ fn key_of(i: usize) -> &'static Key {
     }
 }
 
+/// Key index -> public key: 0..3 owners, 9 unrelated, 80 + o = the other guise of owner o.
+fn pub_of(i: usize) -> PublicKey {
+    if i >= 80 {
+        guise(i - 80).expect("guise")
+    } else {
+        key_of(i).public().clone()
+    }
+}
+
 fn keymaps(signers: &[usize]) -> Vec<KeyMap> {
     let own = |i: usize| (key_of(i).id(), i);
     let mut v = vec![KeyMap { name: "empty".into(), entries: vec![] }];
@@ -395,11 +505,19 @@ fn keymaps(signers: &[usize]) -> Vec<KeyMap> {
         // an unrelated key filed under a signer's id
         v.push(KeyMap { name: "unrelated-key-under-signer-id".into(), entries: vec![(key_of(s0).id(), 9)] });
     }
+    // one key in two guises (same material, two intrinsic ids), next to the other signers
+    for g in signers.iter().copied().filter(|s| *s < 2) {
+        let gid = id_str(&guise(g).unwrap());
+        let mut e: Vec<(String, usize)> = signers.iter().map(|i| own(*i)).collect();
+        e.push((gid.clone(), 80 + g));
+        v.push(KeyMap { name: format!("signers+other-guise-of-{g}"), entries: e });
+        v.push(KeyMap { name: format!("other-guise-of-{g}-only"), entries: vec![(gid, 80 + g)] });
+    }
     v
 }
 
 fn to_map(km: &KeyMap) -> HashMap<KeyId, PublicKey> {
-    km.entries.iter().map(|(l, i)| (KeyId::from_str(l).unwrap(), key_of(*i).public().clone())).collect()
+    km.entries.iter().map(|(l, i)| (KeyId::from_str(l).unwrap(), pub_of(*i))).collect()
 }
 
 // ------------------------------------------------------------- the check
@@ -423,7 +541,7 @@ fn state_json(base: &str, s: &Signed, km: &KeyMap, hist: &[&str], corr: &str, ci
     json!({
         "base": base,
         "signers": s.signers,
-        "caller_keys": km.entries.iter().map(|(l, i)| json!({"label": l, "key": if *i == 9 { "X(unrelated)".to_string() } else { OWNER_NAMES[*i].to_string() }, "key_index": i})).collect::<Vec<_>>(),
+        "caller_keys": km.entries.iter().map(|(l, i)| json!({"label": l, "key": if *i == 9 { "X(unrelated)".to_string() } else if *i >= 80 { format!("{} rebuilt from its raw public key (no hash-algorithm list: another key id)", OWNER_NAMES[*i - 80]) } else { OWNER_NAMES[*i].to_string() }, "key_index": i})).collect::<Vec<_>>(),
         "caller_keys_name": km.name,
         "mutations": hist,
         "corruption": corr,
@@ -457,9 +575,17 @@ fn exec(acc: &mut Acc, base: &Base, s: &Signed, km: &KeyMap, hist: &[&str], corr
     let identity = same_content(&parsed.metadata, &s.original.metadata);
     let valid = valid_signers(&block, &s.genuine);
     // reference condition
-    let ids: Vec<String> = km.entries.iter().map(|(_, i)| key_of(*i).id()).collect();
-    let distinct = ids.iter().collect::<HashSet<_>>().len() == ids.len();
-    let all_valid = km.entries.iter().all(|(_, i)| *i != 9 && valid.contains(i));
+    // distinct keys: distinct intrinsic ids AND distinct key material (one key may have two ids)
+    let ids: Vec<String> = km.entries.iter().map(|(_, i)| id_str(&pub_of(*i))).collect();
+    let mats: Vec<Vec<u8>> = km.entries.iter().map(|(_, i)| pub_of(*i).as_bytes().to_vec()).collect();
+    let distinct = ids.iter().collect::<HashSet<_>>().len() == ids.len() && mats.iter().collect::<HashSet<_>>().len() == mats.len();
+    let guise_entry_valid = |g: usize| -> bool {
+        // the guise has a valid signature iff an entry under its id carries the owner's genuine value
+        let gid = id_str(&pub_of(g));
+        let own = key_of(g - 80).id();
+        block["signatures"].as_array().map(|a| a.iter().any(|e| e["keyid"].as_str() == Some(gid.as_str()) && e["sig"].as_str().is_some() && e["sig"].as_str() == s.genuine.get(&own).map(|x| x.as_str()))).unwrap_or(false)
+    };
+    let all_valid = km.entries.iter().all(|(_, i)| *i != 9 && if *i >= 80 { guise_entry_valid(*i) } else { valid.contains(i) });
     let allowed = !km.entries.is_empty() && distinct && all_valid && identity;
     // the verdict must not depend on the requested summary name (public parameter)
     let v = world::verify(&parsed, to_map(km), &base.dir);
@@ -617,7 +743,7 @@ pub fn run(tier: Tier) -> i32 {
     let _ = std::env::set_current_dir("/");
     c.acc = acc;
     c.rule = format!(
-        "state = (base layout in {{no steps, one step with rules, two steps with MATCH+prefix, threshold 2 with RSA key in table}}, signer subset of 4 owners of 4 key types, caller key map, mutation history of length <= {depth} over {} mutations incl. inverses, signature corruption); every state is one in_toto_verify run; non-trivial = anything but the exact key map on the untouched block",
+        "state = (base layout in {{no steps, one step with rules, two steps with MATCH+prefix, threshold 2 with RSA key in table, one step and one inspection}} (each directory also holds the evidence the mutated layouts ask for), signer subset of 4 owners of 4 key types, caller key map, mutation history of length <= {depth} over {} mutations incl. inverses, signature corruption); every state is one in_toto_verify run; non-trivial = anything but the exact key map on the untouched block",
         MUTATIONS.len()
     );
     c.bound_completed = format!("all 16 signer subsets x all caller key maps x 10 corruptions per signature entry; mutation depth {depth} ({}); every single bit of {} signature(s)", if depth == 3 { "depth 1 with every accepting-capable key map, depth 2 with the exact key map for all signer sets, depth 3 for the single-Ed25519-signer set" } else { "depth 1 with every accepting-capable key map, depth 2 with the exact key map" }, if tier.thorough() { "all four schemes'" } else { "the Ed25519" });
